@@ -34,6 +34,7 @@ def run(check: Check, repo: Repo, tier: str) -> None:
     X.memo_discovery(check, repo, repo.package_modules('execution'))
     X.nonnull_after_completion(check, repo)
     X.null_by_identity(check, repo)
+    X.path_threading(check, repo)
     G.param_readonly(check, list(repo.mod("error.located_error").functions()))
     X.serial(check, repo)
     X.key_order(check, repo)
